@@ -11,16 +11,20 @@ writes it, with transient store faults) composed with the runner LTS of C04 thro
 exception ends the run).  Constants and tables come from `WfModel/GenHandlerStatus.lean`, regenerated
 from the sources on every run.
 
-* `C15_status_map` — every run that ends through a reducer exit command (C04: `EndedWell`) leaves the
-  status of its terminal event, with result / error, provided the store faults stay within the retry
-  budget.
+* `C15_status_map` — every run that ends (every run ends through a reducer exit command: C04,
+  `C04_terminal_last_unconditional`) leaves the status of its terminal event, with result / error, provided
+  the store faults stay within the retry budget.
 * `C15_terminal_sticky` — no operation the stack issues after a terminal status for that row puts it back
   to `running`.  The stores themselves do **not** enforce this (`C15_store_sticky_refuted`,
   `C15_idle_event_after_terminal_flips`); it rests on C04 (`C15_nothing_published_after_terminal`) and on
   the only writers of `running` being the start of a run and the idle adapter (`C15_tables`).
 * `C15_never_stays_running_statement` is **false** of the code (`C15_never_stays_running_refuted_*`):
-  an engine-side failure (F07), exhausted retries of the status write, one transient failure of the
-  unretried `append_event`, one of the idle adapter's unretried status write.  `…_partial` is what holds.
+  exhausted retries of the status write, one transient failure of the unretried `append_event`, one of the
+  idle adapter's unretried status write.  `…_partial` is what holds.  A fourth cause — an engine-side
+  failure: a retry policy raising inside the reducer (F07) — was repaired in the engine
+  (C04/engine_side_failure_no_terminal_event, C15/stays_running:engine_side_failure): the reducer raises
+  nothing any more (`C04_crash_unreachable`), so `…_partial` no longer excludes any outcome;
+  `C15_stays_running_engine_unrepaired` keeps the old behaviour on the reducer variant before the repair.
 -/
 set_option linter.unusedVariables false
 set_option linter.unusedSimpArgs false
@@ -140,22 +144,22 @@ theorem C15.terminal_has_args (p : Pub) (hp : isTerminalPub p = true) :
   | idle => simp [isTerminalPub] at hp
   | unhandled => simp [isTerminalPub] at hp
 
-/-- **C15, clause 1.**  For every workflow configuration, retry policy, initial state, schedule, worker
-results and external ticks (C04's quantifier), every way the run ends through a reducer exit command
-(`o ≠ crashed`), and every assignment of transient store faults to the writes that stays within the retry
-budget: serving the run's published stream to the server adapter raises nothing and leaves, in the row the
-run was started with, the status of the outcome with its result / error and `completed_at`. -/
-theorem C15_status_map (cfg : Cfg) (hwf : cfg.WF) (pol : Policy) (st0 : State) (now : Int)
+/-- **C15, clause 1.**  For every workflow configuration, retry policy (also one that raises), initial
+state satisfying the worker-slot invariant, schedule, worker results and external ticks (C04's quantifier),
+**every** way the run ends, and every assignment of transient store faults to the writes that stays within
+the retry budget: serving the run's published stream to the server adapter raises nothing and leaves, in
+the row the run was started with, the status of the outcome with its result / error and `completed_at`. -/
+theorem C15_status_map (cfg : Cfg) (hwf : cfg.WF) (pol : Policy) (st0 : State) (h0 : IdsInv cfg st0) (now : Int)
     (start : Option Engine.Ev) (timeout : Option Nat) (acts : List Act) (hok : ∀ a ∈ acts, a.ok = true)
     (s : St) (run : Nat) (hr : RunningFor run s) (l : List (Pub × Faults)) :
     let r := Runner.run cfg pol (Runner.init cfg st0 now start timeout) acts
     l.map Prod.fst = r.stream → (∀ x ∈ l, WithinBudget s.backoff.length x) →
-    ∀ o, r.outcome = some o → o ≠ .crashed →
+    ∀ o, r.outcome = some o →
       (serve run s l).2 = true ∧ ∃ rec, (serve run s l).1.row = some rec ∧ rec.runId = run ∧ Reflects o rec := by
-  intro r hl hb o ho hnc
-  have h3 := C04_terminal_last cfg hwf pol st0 now start timeout acts hok
+  intro r hl hb o ho
+  have h3 := C04_terminal_last_unconditional cfg hwf pol st0 h0 now start timeout acts hok
   simp only at h3
-  rcases h3 with hlive | hwell | hcr
+  rcases h3 with hlive | hwell
   · rw [hlive.1] at ho; cases ho
   · obtain ⟨o', p, pre, ho', hs, hpre, hp, hm⟩ := hwell
     have : o = o' := by rw [ho'] at ho; injection ho with ho; exact ho.symm
@@ -182,7 +186,6 @@ theorem C15_status_map (cfg : Cfg) (hwf : cfg.WF) (pol : Policy) (st0 : State) (
     obtain ⟨w1, r0, nw, w2, w3, w4, _⟩ := hw
     rw [andThen_ok _ _ w1]
     refine ⟨rfl, _, w4, by simpa [Rec.apply] using w3, C15.reflects_of_terminal p' o hp hm r0 nw st x y hargs⟩
-  · rw [hcr] at ho; injection ho with ho; exact absurd ho.symm hnc
 
 /-! Non-vacuity: a run that completes, is cancelled while idle, times out; two transient failures of the
 terminal status write are survived (3.5 s of back-off with the default `[0.5, 3]`). -/
@@ -359,12 +362,23 @@ theorem C15.refute (cfg : Cfg) (pol : Policy) (start : Engine.Ev) (acts : List A
   simp only [Option.map_some, Option.some.injEq] at hrow
   exact h2 hrow
 
-/-- F07: the step fails, the user's retry policy raises inside the reducer; the run is over (`crashed`), no
-terminal event was published, no fault was injected: the row still says `running`. -/
-theorem C15_never_stays_running_refuted_engine : ¬ C15_never_stays_running_statement :=
-  C15.refute C04.wCfg (fun _ _ _ _ => .raise) C04.startEv C04.wActs (by decide) 7
-    (C15.zip (Runner.run C04.wCfg (fun _ _ _ _ => .raise) (Runner.init C04.wCfg initState 0 (some C04.startEv) none) C04.wActs).stream 0)
-    (by decide) (by decide) (by decide)
+/-- F07, **before the repair** of the engine (the reducer variant of `WfProofs/EnginePolicyEscapes.lean`): the
+step fails, the user's retry policy raises inside the reducer; the run is over (`crashed`), no terminal event
+was published, no fault was injected: the row still says `running`. -/
+theorem C15_stays_running_engine_unrepaired :
+    let r := Runner.runPolicyEscapes C04.wCfg (fun _ _ _ _ => .raise)
+      (Runner.init C04.wCfg initState 0 (some C04.startEv) none) C04.wActs
+    r.outcome = some .crashed ∧
+      (serve 7 (C15.started 7) (C15.zip r.stream 0)).1.row.map (·.status) = some .running := by decide
+
+/-- the same program, schedule and (absent) faults on the repaired reducer: the raising policy grants no retry,
+the run fails with the step's error and the row says `failed` with that error -/
+theorem C15_engine_failure_repaired :
+    let r := Runner.run C04.wCfg (fun _ _ _ _ => .raise)
+      (Runner.init C04.wCfg initState 0 (some C04.startEv) none) C04.wActs
+    r.outcome = some (.failed 0 7) ∧
+      (serve 7 (C15.started 7) (C15.zip r.stream 0)).1.row.map (fun x => (x.status, x.error)) =
+        some (.failed, some (.exc 7)) := by decide
 
 def C15.okActs : List Act := [.drain, .workerDone 0 0 [.result (some C04.stopEv)], .drain, .drain]
 def C15.idleCancelActs : List Act :=
@@ -398,19 +412,20 @@ theorem C15.reflects_not_running (o : Outcome) (r : Rec) (h : Reflects o r) : r.
   | halted k => cases k <;> (intro hr; rw [h.1] at hr; cases hr)
   | crashed => exact h.elim
 
-/-- **C15, clause 3, what holds**: if the run ends through a reducer exit command and the store faults stay
-within the retry budget (none on the two unretried writes), the row does not say `running` afterwards. -/
-theorem C15_never_stays_running_partial (cfg : Cfg) (hwf : cfg.WF) (pol : Policy) (st0 : State) (now : Int)
+/-- **C15, clause 3, what holds**: if the store faults stay within the retry budget (none on the two
+unretried writes), then after the run has ended — in whatever way: no outcome is excluded, the engine has no
+failure mode without a terminal event any more (`C04_crash_unreachable`) — the row does not say `running`. -/
+theorem C15_never_stays_running_partial (cfg : Cfg) (hwf : cfg.WF) (pol : Policy) (st0 : State)
+    (h0 : IdsInv cfg st0) (now : Int)
     (start : Option Engine.Ev) (timeout : Option Nat) (acts : List Act) (hok : ∀ a ∈ acts, a.ok = true)
     (s : St) (run : Nat) (hr : RunningFor run s) (l : List (Pub × Faults)) :
     let r := Runner.run cfg pol (Runner.init cfg st0 now start timeout) acts
     l.map Prod.fst = r.stream → (∀ x ∈ l, WithinBudget s.backoff.length x) →
-    r.outcome.isSome = true → r.outcome ≠ some .crashed →
+    r.outcome.isSome = true →
       ∃ rec, (serve run s l).1.row = some rec ∧ rec.runId = run ∧ rec.status ≠ .running := by
-  intro r hl hb ho hnc
+  intro r hl hb ho
   obtain ⟨o, ho'⟩ := Option.isSome_iff_exists.mp ho
-  obtain ⟨_, rec, h1, h2, h3⟩ := C15_status_map cfg hwf pol st0 now start timeout acts hok s run hr l hl hb o ho'
-    (by intro hc; subst hc; exact hnc ho')
+  obtain ⟨_, rec, h1, h2, h3⟩ := C15_status_map cfg hwf pol st0 h0 now start timeout acts hok s run hr l hl hb o ho'
   exact ⟨rec, h1, h2, C15.reflects_not_running o rec h3⟩
 
 /-- The retry budget is exact, for every back-off list: up to `len(backoff)` transient failures of the
